@@ -528,6 +528,25 @@ class PfWorld:
                 lay.save_logits(os.path.join(self.in_logits, p['id'] + '.logits'))
         self.ids = ids
 
+    def hide_inputs(self, ids):
+        """Takes the input files of some pages away (they arrive later: scanned after the first run started)."""
+        hold = os.path.join(self.root, 'late_inputs')
+        for src in (self.in_img, self.in_xml, self.in_logits):
+            if not src:
+                continue
+            for f in sorted(os.listdir(src)):
+                if os.path.splitext(f)[0] in ids:
+                    os.makedirs(os.path.join(hold, os.path.basename(src)), exist_ok=True)
+                    os.replace(os.path.join(src, f), os.path.join(hold, os.path.basename(src), f))
+
+    def restore_inputs(self):
+        hold = os.path.join(self.root, 'late_inputs')
+        for src in (self.in_img, self.in_xml, self.in_logits):
+            d = os.path.join(hold, os.path.basename(src)) if src else None
+            if d and os.path.isdir(d):
+                for f in sorted(os.listdir(d)):
+                    os.replace(os.path.join(d, f), os.path.join(src, f))
+
     def img_spec(self, p):
         return {'lines': [dict({'blocks': ln.get('blocks', ln.get('frames', 4)), 'seed': ln['seed'], 'amb': ln.get('amb', 0.3),
                                 'id': ln.get('id', 'l%03d' % j), 'descenders': ln.get('descenders', False)},
